@@ -831,9 +831,13 @@ func Environ() []string {
 		keys = append(keys, k)
 	}
 	sort.Strings(keys)
+	// the order of the environment block is incidental (the order in which the
+	// variables were exported): the schedule decides it, like a map range
+	perm := W.Sched.next("os.Environ", len(keys))
+	W.orderEvent("os.Environ", len(keys), perm)
 	out := make([]string, len(keys))
-	for i, k := range keys {
-		out[i] = k + "=" + W.Env[k]
+	for i, p := range perm {
+		out[i] = keys[p] + "=" + W.Env[keys[p]]
 	}
 	return out
 }
